@@ -274,7 +274,9 @@ def check_injection(ctx, sc, draw, case, forced=None):
                 return
             name, value, exc_type, target = pick[0]
         else:
-            name, value, exc_type, target = draw(st.sampled_from(cands))
+            choice_c = [c for c in cands if c[2] is hpfields.PDFInvalidChoiceValue]
+            pool = choice_c if (choice_c and draw(st.integers(0, 2)) == 0) else cands
+            name, value, exc_type, target = draw(st.sampled_from(pool))
         sec, key = name.split('.', 1)
         sol.set(sec, key, value)
         path = os.path.join(d, 'solution_injected.ini')
